@@ -32,7 +32,7 @@ def encTables (ts : List (List (List Int))) : String :=
 
 def handler : Handler := fun op inp out =>
   match op with
-  | "lowindex" =>
+  | "lowindex" | "lowindex_nc" =>
     match run (do let _name ← P.tok; let n ← P.nat; let rels ← P.intss; let k ← P.nat; pure (n, rels, k)) inp with
     | none => ("-", fail "driver-cannot-parse-input")
     | some (n, rels, k) =>
@@ -42,7 +42,9 @@ def handler : Handler := fun op inp out =>
         | .panic => "PANIC"
       match run (do let c ← P.nat; P.rep c P.intss) out with
       | none => (m, fail "no-tables-returned")
-      | some tl => (m, check (clauses n rels k (tl.map tabOfLists)))
+      | some tl =>
+        let tables := tl.map tabOfLists
+        (m, check (if op == "lowindex" then clauses n rels k tables else basicClauses n rels k tables))
   | _ => ("-", fail s!"driver-unknown-op-{op}")
 
 end DrvC12
